@@ -3,7 +3,7 @@
    Model: Expire/Model.v (policy Compact = value header / wait_compact).  [ts] = timestamp of the raft entry,
    [now] = read clock.  Traces: OW ts c (write), OR now t k (typed read), OC csec chosen (a compaction run with
    clock csec that drops the items of [chosen] which the filter predicate [removable] allows). *)
-From ZV Require Import Common.Bytes Expire.Consts Expire.Model Expire.Proofs Expire.ProofsRel Expire.ProofsCmd Expire.ProofsTrace Expire.ProofsMore Expire.ProofsClass Expire.ProofsLocal.
+From ZV Require Import Common.Bytes Expire.Consts Expire.Model Expire.Proofs Expire.ProofsRel Expire.ProofsCmd Expire.ProofsTrace Expire.ProofsMore Expire.ProofsClass Expire.ProofsLocal Expire.ProofsMono.
 Open Scope Z_scope.
 
 (* ---- (1) the expiry decision, second granularity, placements before / exactly at / after the expiry second ---- *)
@@ -77,6 +77,21 @@ Definition C10_bg_step_invisible_full : Prop := bg_invisible_full.
 Theorem C10_bg_step_invisible_full_refuted : ~ C10_bg_step_invisible_full.
 Proof. exact bg_invisible_full_refuted. Qed.
 Print Assumptions C10_bg_step_invisible_full_refuted.
+(* with strictly increasing write timestamps the freshness condition holds by itself (every generation number in a
+   reachable store is the timestamp of an earlier write): for ALL traces from the empty store whose write timestamps
+   increase strictly and whose times stay within the lazy threshold of every earlier compaction clock, ALL
+   interleavings of compaction steps are invisible *)
+Theorem C10_bg_step_invisible : forall ops, mono 0 ops -> run empty_store ops = run empty_store (strip ops).
+Proof. exact bg_invisible_from_empty. Qed.
+Print Assumptions C10_bg_step_invisible.
+Theorem C10_bg_step_invisible_from : forall ops s last,
+  Inv s -> 0 <= last -> vers_in (fun v => v <= last) s -> mono last ops -> run s ops = run s (strip ops).
+Proof. exact bg_invisible_mono. Qed.
+Print Assumptions C10_bg_step_invisible_from.
+Theorem C10_generations_are_past_timestamps : forall S ts s c,
+  vers_in S s -> vers_in (fun v => S v \/ v = ts) (fst (step Compact s ts c)).
+Proof. exact vers_step. Qed.
+Print Assumptions C10_generations_are_past_timestamps.
 (* what the filter allows to drop: only entries expired for longer than the lazy threshold, and element keys that
    do not belong to the live generation of their collection *)
 Theorem C10_filter_drops_only_garbage : forall s csec it,
@@ -183,7 +198,7 @@ Example C10_ex_bg :
               OW (2 * day) (CHSet [1%N] [4%N] [5%N] false);
               OC (10 * 86400) [IElem TH [1%N] (1 * day) (SB [2%N])];
               OR (10 * day) TH [1%N]] in
-  wf ops /\ run empty_store ops = run empty_store (strip ops) /\
+  wf ops /\ mono 0 ops /\ run empty_store ops = run empty_store (strip ops) /\
   elems (final empty_store ops) <> elems (final empty_store (strip ops)).
 Proof. vm_compute. repeat split; auto; try discriminate; repeat constructor; try discriminate. Qed.
 (* local deletion: SETEX k 10 at second 100 records index entry 110; a tick at 109 leaves the key, a tick at 110 removes it *)
